@@ -1,4 +1,4 @@
-import MgpuModel.C15
+import MgpuModel.C15_Core
 /-! # C15 — the closed system around the reorder buffer, and the abstract FIFO specification
 
 `Sys` composes the tick-exact ROB model (`C15.St`, driven only through `C15.step`) with
